@@ -16,11 +16,13 @@ package plot
 //@   property C17
 //@   pragma closedheap yes
 //@   requires [series-invariant] TSINV()
+//@   modifies ghost(ists, all), ghost(towner, all)
 //@   at call New: ghost ists(&complit) = true ; ghost towner(result) = ref(&complit)
 //@   ensures [empty-series] result != nil && fresh(result) && result.attack == attack && result.label == label && result.len == 0 && result.prev == 0
 //@              && result.data != nil && fresh(result.data) && pushed(result.data) == 0
 //@   ensures [series-invariant] TSINV() && ists(result)
 //@   ensures [other-series-untouched] forall t *plot.timeSeries :: t != result ==> ists(t) == old(ists(t))
+//@   ensures [other-buffers-keep-their-owner] forall d ref :: d != ref(result.data) ==> towner(d) == old(towner(d))
 
 // timeSeries.add: a point is pushed exactly once, or rejected (time going backwards) leaving everything unchanged.
 //@ func (*timeSeries).add
